@@ -163,7 +163,14 @@ func genHostNonASCII(rng *core.Rand) string {
 	if rng.Chance(1, 2) {
 		l = append(l, fillers(rng, 100+rng.Intn(30))...)
 	}
-	h := rng.Pick([]string{"ſ.com", "K.com", "İ.com", "éxample.com", "EXAMPLE.comé", "a.ſſ.test", "\xff.com", "s.com\xc5", "S.COM", "K.com"})
+	if rng.Chance(1, 3) {
+		// non-ASCII entries: Provision turns them into ACE (punycode) labels
+		l = append(l, rng.Pick([]string{"ſ.com", "\u212a.com", "İ.com", "bücher.example", "é.com", "*.ſ.test", "ß.de", "ς.gr", "{ſ.com", "a.ſſ.test"}))
+		if rng.Chance(1, 2) {
+			l = append(l, rng.Pick([]string{"Bücher.Example", "É.com", "σ.gr", "xn--bcher-kva.example"}))
+		}
+	}
+	h := rng.Pick([]string{"xn--bcher-kva.example", "XN--BCHER-KVA.example", "bücher.example", "BÜCHER.example", "s.com", "k.com", "ſ.com", "K.com", "İ.com", "éxample.com", "EXAMPLE.comé", "a.ſſ.test", "\xff.com", "s.com\xc5", "S.COM", "K.com"})
 	if rng.Chance(1, 4) {
 		h += ":80"
 	}
@@ -365,6 +372,22 @@ func genPathRECase(rng *core.Rand) string {
 	return "pathre " + rng.Pick([]string{"full", "pre", "sub"}) + " " + core.Hex(lit) + " " + core.Hex(raw)
 }
 
+// genVia re-routes a host / path / path_regexp case through the CEL or JSON front door.
+func genVia(rng *core.Rand, hr, pr, rr *core.Rand) string {
+	switch rng.Intn(7) {
+	case 0, 1:
+		return rng.Pick([]string{"cel-", "json-"}) + genHostCase(hr)
+	case 2, 3:
+		return rng.Pick([]string{"cel-", "json-"}) + genPathCase(pr)
+	case 4:
+		return rng.Pick([]string{"cel-", "json-"}) + genPathRECase(rr)
+	default:
+		hf := strings.Fields(genHostCase(hr))
+		pf := strings.Fields(genPathCase(pr))
+		return "json-set " + hf[1] + " " + pf[1] + " " + hf[2] + " " + pf[2] + " " + pf[3]
+	}
+}
+
 func genMalformed(rng *core.Rand) string {
 	switch rng.Intn(12) {
 	case 0:
@@ -388,7 +411,7 @@ func genMalformed(rng *core.Rand) string {
 	case 9:
 		return "path " + listField([]string{"/{http.request.uri.path}"}) + " 2f61 2f61"
 	case 10:
-		return rng.Pick([]string{"frob 00", "pathpair case 2f61 2f61 2f61 2f62 2f62", "pathpair glob 2f61 2f61 2f61 2f61 2f61", "pathpair slash 2f61 2f2f61 2f2f61 2f61"})
+		return rng.Pick([]string{"frob 00", "cel-host . 61", "cel-host 27 61", "json-set 61 2f61 61 2f61", "cel-path zz 2f61 2f61", "pathpair case 2f61 2f61 2f61 2f62 2f62", "pathpair glob 2f61 2f61 2f61 2f61 2f61", "pathpair slash 2f61 2f2f61 2f2f61 2f61"})
 	default:
 		return "path " + listField([]string{"/é"}) + " 2f61 2f61"
 	}
@@ -403,6 +426,7 @@ func (prop) Generate(rng *core.Rand, tier string, emit func(string)) {
 		n = 40000
 	}
 	hr, pr, rr, mr, nr := rng.Fork(), rng.Fork(), rng.Fork(), rng.Fork(), rng.Fork()
+	vr := rng.Fork()
 	for c := 0; c < n; c++ {
 		switch {
 		case c%100 == 99:
@@ -413,6 +437,8 @@ func (prop) Generate(rng *core.Rand, tier string, emit func(string)) {
 			emit(genPathRECase(rr))
 		case c%20 == 13:
 			emit(genPathPair(pr))
+		case c%15 == 4:
+			emit(genVia(vr, hr, pr, rr))
 		case c%5 < 2:
 			emit(genHostCase(hr))
 		default:
